@@ -69,11 +69,16 @@ def run_batch(ctx: Ctx, drv: Optional[Driver], models: list[tuple], v11: bool, m
         if not built_ok or det is not True:
             continue
         intro = cm.Introspector(group)
-        if cm.ast_of_json(intro.json) != ast:
+        if cm.ast_of_json(intro.json) != cm.strip_refs(ast):
             ctx.mismatch('parsed group differs from the declared model', {'model': cm.show(ast)},
-                         cm.ast_of_json(intro.json), ast)
+                         cm.ast_of_json(intro.json), cm.strip_refs(ast))
             continue
+        for g in intro.glue:
+            ctx.mismatch('substitution group computed by the schema differs from the declared closure',
+                         {'model': cm.show(ast)}, g['substitutes_built'], g['substitutes_declared'])
         alpha = cm.alphabet(ast)
+        if 'h' in alpha and 'q' not in alpha:
+            alpha = alpha + ['q']       # the abstract member: must never be accepted
         foreign = [s for s in (('o', 'c') if oc else ('c', 'o')) if s not in alpha][:1]
         ocj = None
         if oc is not None:
@@ -104,15 +109,23 @@ def run_batch(ctx: Ctx, drv: Optional[Driver], models: list[tuple], v11: bool, m
             nontrivial = bool(w) and (len(cm.leaves(ast)) > 1 or (ast[2], ast[3]) != (1, 1))
             ctx.case(case, nontrivial, tag=f"{case['v']}/{fam}")
             ref = cm.ref_accepts_oc(ast, w, oc) if oc else cm.ref_accepts(ast, w)
+            if 'q' in w:
+                # the abstract substitution-group member: XSD 1.0 processor refuses it at model level, the
+                # 1.1 processor matches it and refuses it at element level ("can't use an abstract element");
+                # either way the sequence must be rejected -- nothing else is compared for such words
+                ctx.count('abstract-member-word')
+                if im['valid']:
+                    ctx.failure('child sequence using an abstract substitution-group member reported valid', case, im)
+                continue
             if im['other']:
                 ctx.failure('unexpected non-children error for a simple-typed child', case, im['other'])
             if im['valid'] != (not im['errs']):
                 ctx.failure('is_valid disagrees with iter_errors', case, im)
             if ans is None:
-                # Lean unavailable: judge with the python reference language
+                # Lean unavailable: deviations from the reference language cannot be classified against the
+                # pinned port (known finding C01-F0), so they are only counted
                 if im['valid'] != ref:
-                    ctx.failure('verdict differs from language membership (reference matcher; Lean oracle unavailable)',
-                                case, {'valid': im['valid'], 'in_language': ref})
+                    ctx.count('unclassified-deviation(no-driver)')
                 continue
             if 'err' in ans:
                 ctx.mismatch('driver error', case, None, ans)
@@ -152,6 +165,8 @@ def families(ctx: Ctx):
         yield 'exh3-sample', v11, rng.sample(three, min(len(three), n3)), 5
         rnd = [cm.random_model(rng, ['a', 'b', 'c', 'h'], v11=v11) for _ in range(ctx.pick(300, 4000))]
         yield 'random', v11, rnd, ctx.pick(5, 6)
+        refs = [cm.with_refs(rng, cm.random_model(rng, ['a', 'b', 'c'], v11=v11, allow_all=False)) for _ in range(ctx.pick(120, 2000))]
+        yield 'group-refs', v11, [m for m in refs if 'ref' in repr(m)], 5
     for oc in (('interleave', '##other'), ('suffix', '##other'), ('interleave', '##any'), ('suffix', '##any')):
         rnd = [cm.random_model(rng, ['a', 'b'], max_depth=2, v11=True, any_p=0.0) for _ in range(ctx.pick(60, 1500))]
         yield ('open-content', oc), True, rnd, 4
@@ -202,7 +217,10 @@ def run(ctx: Ctx, driver_ok: bool) -> None:
 
 
 def search(ctx: Ctx) -> None:
+    """widen the exploration (thorough family) when a tie broke without a failing input"""
     saved = ctx.tier
+    drv = Driver('drv_c01')
+    drv = drv if drv.path.exists() else None
     ctx.tier = 'thorough'
     ctx.budget_s += 600
     try:
@@ -213,7 +231,7 @@ def search(ctx: Ctx) -> None:
             for i in range(0, len(models), 40):
                 if ctx.failures or ctx.time_left() < 30:
                     return
-                run_batch(ctx, None, models[i:i + 40], v11, maxlen, fam, oc)
+                run_batch(ctx, drv, models[i:i + 40], v11, maxlen, fam, oc)
     finally:
         ctx.tier = saved
 
